@@ -17,7 +17,8 @@ from vf.runner import digest
 ID = "C19"
 LEVEL = "model_checking"
 RULE = (
-    "BFS from five initial states (a cell with one uniform channel on which set_ncomp is accepted, with groups; irregular cell with Na+K on overlapping branch sets; same cell with HH on a subset; 2-cell network "
+    "BFS from six initial states (the 2-cell network with recordings of membrane and synaptic states, stimuli and clamps inserted in "
+    "non-ascending target order; a cell with one uniform channel on which set_ncomp is accepted, with groups; irregular cell with Na+K on overlapping branch sets; same cell with HH on a subset; 2-cell network "
     "with two synapse types; 2-cell network whose cells carried different channel sets before assembly) over the operation alphabet {insert/delete of channels sharing columns, set, set_ncomp, add_to_group, "
     "record, delete_recordings, stimulate, clamp, delete_stimuli, delete_clamps, make_trainable, delete_trainables, connect, init_states} "
     "on small views, depth 2 (quick) / 3 (thorough); replay from scratch per history; canonical snapshot hashing merges commuting "
@@ -116,7 +117,23 @@ def _net_het():
     return net
 
 
-INITS = {"cell_nak": _cell_nak, "cell_hh": _cell_hh, "net2": _net2, "net_het": _net_het, "cell_uni": _cell_uni}
+def _net2_rec():
+    """net2 with recordings of membrane AND synaptic states everywhere (compartment indices and global edge indices overlap as
+    numbers), a stimulus and clamps inserted in non-ascending target order: the state from which partial deletions through views start."""
+    net = _net2()
+    net.record("v", verbose=False)
+    net.IonotropicSynapse.record("IonotropicSynapse_s", verbose=False)
+    net.TestSynapse.record("TestSynapse_c", verbose=False)
+    net.cell(1).branch(2).comp(0).stimulate(0.07 * _j().ones(T), verbose=False)
+    net.cell(0).branch(0).comp(1).stimulate(0.11 * _j().ones(T), verbose=False)
+    net.cell(1).branch(0).comp(0).stimulate(0.05 * _j().ones(T), verbose=False)
+    net.cell(1).branch(1).comp(0).clamp("v", -61.0 * _j().ones(T), verbose=False)
+    net.cell(0).branch(1).comp(0).clamp("v", -66.0 * _j().ones(T), verbose=False)
+    net.cell(1).branch(0).comp(1).clamp("v", -63.0 * _j().ones(T), verbose=False)
+    return net
+
+
+INITS = {"cell_nak": _cell_nak, "cell_hh": _cell_hh, "net2": _net2, "net_het": _net_het, "cell_uni": _cell_uni, "net2_rec": _net2_rec}
 
 
 def _j():
@@ -239,6 +256,14 @@ OPS["u_ncomp_b2_4"] = lambda m: m.branch(2).set_ncomp(4)
 _UNI = [k for k in OPS if k.startswith("u_")] + ["group_b0", "group_b2c2", "rec_v_b2", "delrec_all", "stim_b0c0", "stim_b2", "clamp_v_b1", "delstim_b2",
                                                  "delclamp_b1", "train_rad_branches", "deltrain_b0", "init_states", "set_v_b0", "rec_HHm_b0c1"]
 
+OPS["n_delrec_I1"] = lambda m: m.IonotropicSynapse.edge(1).delete_recordings()
+OPS["n_delrec_T"] = lambda m: m.TestSynapse.delete_recordings()
+OPS["n_delrec_c0"] = lambda m: m.cell(0).delete_recordings()
+OPS["n_delstim_c1b0"] = lambda m: m.cell(1).branch(0).delete_stimuli()
+OPS["n_delstim_c0"] = lambda m: m.cell(0).delete_stimuli()
+OPS["n_delclamp_c1b0"] = lambda m: m.cell(1).branch(0).delete_clamps()
+OPS["n_delclamp_c0"] = lambda m: m.cell(0).delete_clamps()
+
 _CELL_COMMON = ["ins_Leak_b0", "ins_Km_all", "ins_CaL_b2", "ins_CaT_b2c0", "set_rad_b2c1", "set_v_b0", "ncomp_b1_2", "ncomp_b2_1",
                 "group_b0", "group_b2c2", "rec_v_b2", "delrec_all", "delrec_b2", "stim_b0c0", "stim_b2", "clamp_v_b1", "delstim_all",
                 "delstim_b2", "delclamp_all", "delclamp_b1", "train_rad_branches", "deltrain_all", "deltrain_b0", "init_states",
@@ -251,6 +276,7 @@ OPS_FOR = {
     "net_het": _HET,
     "cell_uni": _UNI,
 }
+OPS_FOR["net2_rec"] = list(OPS_FOR["net2"])
 UNDOES = {
     "del_Km_all": "ins_Km_all", "del_CaL_b2": "ins_CaL_b2", "del_CaT_b2c0": "ins_CaT_b2c0", "del_HH_b1": "ins_HH_b1",
     "del_Leak_b0": "ins_Leak_b0", "n_del_Leak_c1": "n_ins_Leak_c1", "h_del_Leak_c1": "h_ins_Leak_c1",
@@ -382,6 +408,10 @@ CONFINED = {
     "delrec_b2": ("rec", lambda m: m.branch(2)), "delstim_b2": ("stim", lambda m: m.branch(2)),
     "delclamp_b1": ("clamp", lambda m: m.branch(1)), "deltrain_b0": ("train", lambda m: m.branch(0)),
     "n_delrec_c1": ("rec", lambda m: m.cell(1)), "n_delclamp_c1": ("clamp", lambda m: m.cell(1)),
+    "n_delrec_I1": ("rec", lambda m: m.IonotropicSynapse.edge(1)), "n_delrec_T": ("rec", lambda m: m.TestSynapse),
+    "n_delrec_c0": ("rec", lambda m: m.cell(0)), "n_delstim_c1b0": ("stim", lambda m: m.cell(1).branch(0)),
+    "n_delstim_c0": ("stim", lambda m: m.cell(0)), "n_delclamp_c1b0": ("clamp", lambda m: m.cell(1).branch(0)),
+    "n_delclamp_c0": ("clamp", lambda m: m.cell(0)),
 }
 
 
@@ -519,6 +549,15 @@ def _confined_delete(op, init, parent_hist, m):
             got = [int(i) for i in np.asarray(m.external_inds.get(k, []))]
             if sorted(want) != sorted(got):
                 errs.append(("I8_confined_delete", f"delete_{kind}_not_confined_to_view", f"{k}: before {bi}, view rows {sorted(rows)}, after {got}"))
+            else:
+                # every survivor keeps ITS OWN data row (index array and data array stay aligned)
+                bd = np.asarray(parent.externals[k], float)
+                pairs_before = sorted((i, tuple(np.round(bd[j], 12))) for j, i in enumerate(bi) if i in want)
+                ad = np.asarray(m.externals[k], float) if k in m.externals else np.zeros((0, 0))
+                pairs_after = sorted((i, tuple(np.round(ad[j], 12))) for j, i in enumerate(got))
+                if pairs_before != pairs_after:
+                    errs.append(("I8_confined_delete", f"delete_{kind}_misaligns_surviving_rows",
+                                 f"{k}: surviving (target, first sample) before {[(i, d[0]) for i, d in pairs_before]} after {[(i, d[0]) for i, d in pairs_after]}"))
     elif kind == "train":
         before = [(list(p)[0], np.asarray(i).tolist()) for p, i in zip(parent.trainable_params, parent.indices_set_by_trainables)]
         got = [(list(p)[0], np.asarray(i).tolist()) for p, i in zip(m.trainable_params, m.indices_set_by_trainables)]
